@@ -23,21 +23,30 @@ def sh(cmd, **kw):
 
 
 def build_engine():
-    """(Re)build gosym if any engine source is newer than the binary."""
-    newest = 0
-    for root, _, files in os.walk(ENGINE):
+    """(Re)build gosym unless the binary was built from exactly the present engine sources
+    (content hash kept next to the binary; the binary is never committed)."""
+    h = hashlib.sha256()
+    for root, dirs, files in os.walk(ENGINE):
+        dirs.sort()
         if "/bin" in root:
             continue
-        for f in files:
+        for f in sorted(files):
             if f.endswith(".go") or f in ("go.mod", "go.sum"):
-                newest = max(newest, os.path.getmtime(os.path.join(root, f)))
-    if os.path.exists(GOSYM) and os.path.getmtime(GOSYM) >= newest:
+                p = os.path.join(root, f)
+                h.update(p.encode())
+                with open(p, "rb") as fh:
+                    h.update(fh.read())
+    want = h.hexdigest()
+    stamp = GOSYM + ".stamp"
+    if os.path.exists(GOSYM) and os.path.exists(stamp) and open(stamp).read().strip() == want:
         return
     os.makedirs(os.path.join(ENGINE, "bin"), exist_ok=True)
     r = sh(["go", "build", "-o", GOSYM, "./cmd/gosym"], cwd=ENGINE, capture_output=True, text=True)
     if r.returncode != 0:
         sys.stderr.write(r.stdout + r.stderr)
         raise SystemExit(3)
+    with open(stamp, "w") as fh:
+        fh.write(want)
 
 
 _tree_hash = {}
@@ -97,6 +106,8 @@ def run_gosym(run, tier, use_cache=True, workers=16):
     timeout_ms = run.get("timeout_ms", {}).get(tier, 20000 if tier == "quick" else 60000)
     harness = run["harness"][tier] if isinstance(run["harness"], dict) else run["harness"]
     path_budget = 180 if tier == "quick" else 900
+    # whole-run budget: what is not explored when it runs out is reported as inconclusive
+    run_budget = run.get("budget_s", {}).get(tier, 1200 if tier == "quick" else 7200)
     key = hashlib.sha256(json.dumps([tree_hash(run["module"]), run["module"], run["pkg"], harness, bstr, timeout_ms,
                                      run.get("loop", 64), path_budget]).encode()).hexdigest()[:24]
     os.makedirs(CACHE, exist_ok=True)
@@ -112,7 +123,7 @@ def run_gosym(run, tier, use_cache=True, workers=16):
     cmd = [GOSYM, "-dir", os.path.join(REPO, mod["dir"]), "-pkg", run["pkg"], "-overlay", overlay,
            "-run", harness, "-out", tmp, "-bounds", bstr, "-timeout-ms", str(timeout_ms),
            "-workers", str(workers), "-loop", str(run.get("loop", 64)), "-full-models",
-           "-path-budget-s", str(path_budget)]
+           "-path-budget-s", str(path_budget), "-budget-s", str(run_budget)]
     t0 = time.time()
     r = sh(cmd, capture_output=True, text=True)
     if not os.path.exists(tmp):
@@ -189,6 +200,7 @@ def check_property(pid, spec, tier, seed, use_cache=True):
     for run in spec["runs"]:
         if only and not re.search(only, run["pkg"]):
             continue
+        prefix = run.get("prefix", spec.get("prefix", pid))
         out = run_gosym(run, tier, use_cache)
         if out.get("error"):
             inconclusive.append("engine: " + out["error"][:1500])
@@ -207,6 +219,16 @@ def check_property(pid, spec, tier, seed, use_cache=True):
                     or (n.startswith("reach:") and True)}
             relevant = [n for n in mine if not n.startswith("reach:")]
             if not relevant and not spec.get("all_obligations"):
+                # a harness that reached no obligation at all (every path ended early) decides
+                # nothing for anybody: that is inconclusive for every property using the run,
+                # never a silent pass
+                anyob = [n for n in h["obligations"] if not n.startswith("reach:")]
+                named = ("_" + prefix + "_") in h["name"]
+                if anyob and not named:
+                    continue
+                inconclusive.append("%s: no obligation of %s was reached (statuses %s)" % (h["name"], prefix, h["status"]))
+                for ic in h.get("inconclusive", []) or []:
+                    inconclusive.append("%s: %s: %s" % (h["name"], ic["status"], ic["msg"][:300]))
                 continue
             if spec.get("all_obligations"):
                 mine = h["obligations"]
